@@ -340,7 +340,7 @@ func (ef *Effects) Roots(v ssa.Value) []Root {
 					}
 					return
 				}
-				if eff, ok := Externs[qualified(callee)]; ok && eff.Fresh {
+				if eff, ok := externEffect(callee); ok && eff.Fresh {
 					add(Root{Kind: RLocal})
 					return
 				}
@@ -614,7 +614,7 @@ func (ef *Effects) propagate(fn *ssa.Function) bool {
 				addUndec(u + " (via " + cs.Callee.String() + ")")
 			}
 		case cs.Extern != "":
-			eff, ok := Externs[cs.Extern]
+			eff, ok := externEffect(cs.Instr.Common().StaticCallee())
 			if !ok {
 				addUndec("call of " + cs.Extern + " is not in the external-effects allow-list")
 				continue
@@ -668,9 +668,37 @@ func (ef *Effects) propagate(fn *ssa.Function) bool {
 	return changed
 }
 
+// purePkgs: every package-level function and every value-receiver method of
+// these packages neither writes memory its caller can see nor returns
+// references into caller-visible memory (beyond immutable strings).
+var purePkgs = map[string]bool{
+	"strings": true, "strconv": true, "math": true, "math/bits": true, "unicode": true, "unicode/utf8": true,
+	"errors": true, "fmt": true, "golang.org/x/text/language": true, "github.com/goark/errs": true, "cmp": true,
+}
+
+// externEffect looks a callee up in the explicit table, then in the pure-package rule.
+func externEffect(callee *ssa.Function) (ExternEffect, bool) {
+	q := qualified(callee)
+	if eff, ok := Externs[q]; ok {
+		return eff, true
+	}
+	if callee.Pkg != nil && purePkgs[callee.Pkg.Pkg.Path()] {
+		recv := callee.Signature.Recv()
+		if recv == nil {
+			return ExternEffect{Fresh: true, Note: "package-level function of a pure package"}, true
+		}
+		if _, isPtr := recv.Type().(*types.Pointer); !isPtr {
+			return ExternEffect{Fresh: true, Note: "value-receiver method of a pure package"}, true
+		}
+	}
+	return ExternEffect{}, false
+}
+
 // ExternInvokes lists interface methods the library calls, with their effects.
 var ExternInvokes = map[string]ExternEffect{
 	"(error).Error": {},
+	"(golang.org/x/text/language.Matcher).Match": {Fresh: true, Note: "x/text matcher: read-only"},
+	"(fmt.Stringer).String":                      {Fresh: true},
 }
 
 func writeKey(w Write) string {
